@@ -324,7 +324,7 @@ fn nest(base: &str, d: usize) -> String {
 fn gen_case(seed: u64, idx: usize, for_model: bool) -> Value {
     let mut rng = Rng::new(seed ^ 0xC16 ^ ((idx as u64).wrapping_mul(0x9E3779B97F4A7C15)));
     rng.next();
-    let fam = match idx % 12 { 0..=4 => "plain", 5 | 6 => "cyclic", 7 => "deep-chain", 8 => "alias-chain", 9 => "deep-nest", 10 => "prim-supers", _ => "plain" };
+    let fam = match idx % 12 { 0..=4 => "plain", 5 | 6 => "cyclic", 7 => "deep-chain", 8 => "alias-chain", 9 => "deep-nest", 10 => "prim-supers", _ => "braid" };
     let mut defs = String::new();
     let mut env = Env { classes: vec![], aliases: vec![] };
     let mut names: Vec<String> = vec![];
@@ -373,11 +373,26 @@ fn gen_case(seed: u64, idx: usize, for_model: bool) -> Value {
             types.push("string".into()); types.push("A".into());
         }
         _ => {
-            let nc = rng.range(if fam == "plain" { 0 } else { 2 }, 7);
+            let nc = if fam == "braid" { rng.range(4, 6) } else { rng.range(if fam == "plain" { 0 } else { 2 }, 7) };
             for i in 0..nc { env.classes.push(format!("C{}", i)); }
+            // "braid": every class is on a ring (its ring successor is a parent) and lists one or two other ring classes as
+            // parents as well, before or after it: several parents of one class lead back to it through shared classes
+            let exact_braid = fam == "braid" && nc == 4 && rng.chance(1, 2);
             for i in 0..nc {
                 let mut sups: Vec<String> = vec![];
-                let k = rng.below(3);
+                if fam == "braid" {
+                    if exact_braid {
+                        // A: P, B ; P: B ; B: Q, A ; Q: A   with A=C0 P=C1 B=C2 Q=C3
+                        sups = match i { 0 => vec!["C1".into(), "C2".into()], 1 => vec!["C2".into()], 2 => vec!["C3".into(), "C0".into()], _ => vec!["C0".into()] };
+                    } else {
+                        let ring = format!("C{}", (i + 1) % nc);
+                        let extra = rng.range(0, 2);
+                        for _ in 0..extra { sups.push(format!("C{}", rng.below(nc))); }
+                        let pos = rng.below(sups.len() + 1);
+                        sups.insert(pos, ring);
+                    }
+                }
+                let k = if fam == "braid" { 0 } else { rng.below(3) };
                 for _ in 0..k {
                     if fam == "cyclic" && rng.chance(1, 2) {
                         let j = rng.below(nc);
